@@ -42,6 +42,7 @@ class Entry:
     event_ndims: int = 0
     dtype: str = "float32"   # documented dtype of a sample
     exported: bool = True
+    cost: str = "light"      # filled from COST below
 
 
 # ----------------------------------------------------------------------------- generators
@@ -232,6 +233,70 @@ def s_realvec(v, p):
 SUPPORT = {k[2:]: f for k, f in list(globals().items()) if k.startswith("s_") and callable(f)}
 
 
+# ----------------------------------------------------------------------------- in-support values
+# Constraint values for assess / importance / update are drawn here (numpy), not from the
+# distribution: log-density comparisons do not need distributional samples, tails get covered,
+# and no (expensive) TFP sampler is needed on the oracle side.
+
+
+def gen_value(support, rng, p, shape, dtype, boundary=False):
+    """A value of array shape `shape` (= sample_shape + batch_shape [+ event]) inside the support
+    named `support` for parameters `p` (batch-shaped numpy arrays)."""
+    shape = tuple(shape)
+    g = lambda name: np.asarray(p[name], dtype=np.float64)  # noqa: E731
+    if support == "real" or support == "realvec":
+        c = 0.0
+        if "loc" in p:
+            c = g("loc")
+        x = c + rng.standard_t(3, size=shape) * 1.5
+    elif support == "nonneg":
+        x = np.exp(rng.normal(size=shape) * 1.2)
+        if boundary and rng.random() < 0.3:
+            x = np.where(rng.random(size=shape) < 0.3, 0.0, x)
+    elif support == "unit":
+        x = rng.uniform(0.01, 0.99, size=shape)
+        if boundary and rng.random() < 0.3:
+            x = np.where(rng.random(size=shape) < 0.3, rng.integers(0, 2, size=shape).astype(float), x)
+    elif support == "bool":
+        x = rng.random(size=shape) < 0.5
+    elif support == "bit":
+        x = rng.integers(0, 2, size=shape)
+    elif support == "nat":
+        x = rng.integers(0, 12, size=shape)
+    elif support == "int":
+        x = rng.integers(-6, 7, size=shape)
+    elif support == "pos_int":
+        x = rng.integers(1, 12, size=shape)
+    elif support == "upto_count":
+        n = np.broadcast_to(g("total_count"), shape)
+        x = np.floor(rng.random(size=shape) * (n + 1))
+        x = np.minimum(x, n)
+    elif support == "category":
+        x = rng.integers(0, K_EVENT, size=shape)
+    elif support == "simplex":
+        x = rng.dirichlet(np.ones(K_EVENT) * 1.5, size=shape[:-1])
+        x = np.clip(x, 1e-3, None)
+        x = x / x.sum(-1, keepdims=True)
+    elif support == "countvec":
+        n = np.broadcast_to(g("total_count"), shape[:-1])
+        flat = [rng.multinomial(int(k), rng.dirichlet(np.ones(K_EVENT))) for k in n.reshape(-1)]
+        x = np.asarray(flat, dtype=np.float64).reshape(shape)
+    elif support == "sphere":
+        x = rng.normal(size=shape)
+        x = x / np.linalg.norm(x, axis=-1, keepdims=True)
+    elif support == "interval":
+        lo = np.broadcast_to(g("low"), shape)
+        hi = np.broadcast_to(g("high"), shape)
+        x = lo + (hi - lo) * rng.uniform(0.02, 0.98, size=shape)
+    elif support == "ge_loc":
+        x = g("loc") + np.exp(rng.normal(size=shape) * 1.2)
+    elif support == "circle":
+        x = g("loc") + rng.uniform(-3.1, 3.1, size=shape)
+    else:
+        raise KeyError(support)
+    return np.asarray(x).astype(dtype)
+
+
 # ----------------------------------------------------------------------------- the table
 
 
@@ -335,7 +400,29 @@ def table():
             Fm("f32", [("power", "power")], 1, static={"dtype": "float32"}),
         ], "pos_int", dtype="int32"),
     ]
+    for e in T:
+        for cls, names in COST.items():
+            if e.name in names:
+                e.cost = cls
     return T
+
+
+# Measured CPU-seconds of XLA compile per instance under jit(vmap) (TFP 0.23 / jax 0.5, opt level 0):
+#   "heavy":   the *sampler* costs 1.5-20 s per instance (gamma family, rejection samplers) and
+#              seconds per call eagerly; log_prob is cheap (< 0.5 s)
+#   "lpheavy": the *log_prob* itself costs 1.3-17 s per instance (beta_quotient: 147 s of vmap
+#              lowering, 17 s without vmap; 10-15 s per eager call) -> no vmap, reduced op sets
+COST = {
+    "heavy": ["beta", "beta_binomial", "binomial", "chi", "chi2", "dirichlet", "dirichlet_multinomial",
+              "exp_gamma", "exp_inverse_gamma", "gamma", "half_student_t", "inverse_gamma", "inverse_gaussian",
+              "kumaraswamy", "multinomial", "negative_binomial", "poisson", "power_spherical", "student_t",
+              "von_mises", "zipf"],
+    "lpheavy": ["beta_quotient", "non_central_chi2", "skellam", "von_mises_fisher", "lambert_w_normal"],
+}
+# rough CPU-seconds of the always-run scenario, for balancing shards
+UNIT_COST = {"light": 6.0, "heavy": 22.0, "lpheavy": 40.0}
+UNIT_COST_BY_NAME = {"beta_quotient": 110.0, "dirichlet_multinomial": 40.0, "multinomial": 40.0, "beta_binomial": 35.0,
+                     "power_spherical": 35.0, "skellam": 60.0, "non_central_chi2": 60.0}
 
 
 def draw_params(form, rng, bs, edge=False, keep=None):
